@@ -237,6 +237,12 @@ func (core *JApiCore) checkPathSchemaPropertyUserType(typeName string) error {
 		return fmt.Errorf(`%s (%s)`, jerr.UserTypeNotFound, typeName)
 	}
 
+	if _, ok := ut.Schema.(*catalog.ExchangePseudoSchema); ok {
+		// A user type with the `any` notation has no schema: inside a schema it
+		// cannot be referred to (see also checkPathSchemaPropertyInAllOf).
+		return fmt.Errorf(`%s (%s)`, jerr.UserTypeNotFound, typeName)
+	}
+
 	rootNode, err := ut.Schema.GetAST()
 	if err != nil {
 		return errors.New(jerr.RuntimeFailure)
